@@ -35,6 +35,7 @@ type controller struct {
 	mu      sync.Mutex
 	arrived map[string]chan string   // conn tag -> channel of point names reached
 	release map[string]chan struct{} // conn tag -> release tokens
+	free    map[string]bool          // conn tags that are no longer scheduled (run freely to the end)
 }
 
 func (c *controller) chans(tag string) (chan string, chan struct{}) {
@@ -53,8 +54,23 @@ func (c *controller) yield(point string, r *http.Request) {
 		return
 	}
 	a, rel := c.chans(tag)
-	a <- point
+	c.mu.Lock()
+	fr := c.free[tag]
+	c.mu.Unlock()
+	if fr {
+		return
+	}
+	select {
+	case a <- point:
+	default:
+	}
 	<-rel
+}
+
+func (c *controller) setFree(tag string) {
+	c.mu.Lock()
+	c.free[tag] = true
+	c.mu.Unlock()
 }
 
 const ceiling = 3 * time.Second
@@ -118,7 +134,7 @@ func run(c *hk.Ctx) {
 	} else {
 		c.SetExtra("exhaustive_at_depth", depth)
 	}
-	ctl := &controller{arrived: map[string]chan string{}, release: map[string]chan struct{}{}}
+	ctl := &controller{arrived: map[string]chan string{}, release: map[string]chan struct{}{}, free: map[string]bool{}}
 	mcp.VerifSetYield(ctl.yield)
 	defer mcp.VerifSetYield(nil)
 	if en.Facts["flushBeforeStore"] {
@@ -161,17 +177,27 @@ func runSchedule(c *hk.Ctx, ctl *controller, sched []ev, isWitness bool) {
 	outs := []map[string]any{}
 	valid := true
 	owner := -1
+	lastStored := -1
+	ended := map[int]bool{}
+	closedByUs := map[int]bool{}
 	reconnectSendAfterHeaders := false
 	releaseAll := func() {
 		for _, h := range hs {
-			if h.stream != nil {
-				h.stream.CloseByClient()
-			}
+			ctl.setFree(h.tag)
 			for i := 0; i < 8; i++ {
 				select {
 				case h.release <- struct{}{}:
 				default:
 				}
+			}
+		}
+		for _, h := range hs {
+			select {
+			case <-h.done: // headers received or request failed
+			case <-time.After(2 * time.Second):
+			}
+			if h.stream != nil {
+				h.stream.CloseByClient()
 			}
 		}
 	}
@@ -267,12 +293,13 @@ func runSchedule(c *hk.Ctx, ctl *controller, sched []ev, isWitness bool) {
 			}
 		case "exit":
 			h := hs[*e.N]
-			if h.parked != "" {
-				h.release <- struct{}{}
-				h.parked = ""
+			p := advance(h, "get:exited") // the handler has removed its entry (or left another stream's entry alone)
+			if p != "get:exited" {
+				o = map[string]any{"reached": p, "wanted": "get:exited"}
 			}
+			h.release <- struct{}{} // let it return
+			h.parked = ""
 			h.gone = true
-			// the handler returns; the client sees EOF on that stream
 			if h.stream != nil && !h.stream.Ended(ceiling) {
 				o = map[string]any{"reached": "no-eof-after-exit"}
 			}
@@ -319,19 +346,34 @@ func runSchedule(c *hk.Ctx, ctl *controller, sched []ev, isWitness bool) {
 		}
 		switch e.E {
 		case "flush":
-			if o["ok"] == true {
+			if o["ok"] == true && !ended[*e.N] {
 				owner = *e.N
 			}
 		case "store":
+			// the stream stored before is replaced (cancelled) by this one
+			if lastStored >= 0 && lastStored != *e.N {
+				ended[lastStored] = true
+			}
+			lastStored = *e.N
 			if *e.N != owner {
 				owner = -1
 			}
 		case "close":
+			ended[*e.N] = true
+			closedByUs[*e.N] = true
 			if *e.N == owner {
 				owner = -1
 			}
 		case "delete":
+			if lastStored >= 0 {
+				ended[lastStored] = true
+			}
+			lastStored = -1
 			owner = -1
+		case "exit":
+			if lastStored == *e.N {
+				lastStored = -1
+			}
 		}
 		outs = append(outs, o)
 	}
@@ -358,7 +400,11 @@ func runSchedule(c *hk.Ctx, ctl *controller, sched []ev, isWitness bool) {
 			if n := findMarker(p.marker, ceiling); n >= 0 {
 				outs[p.idx] = map[string]any{"delivered": n}
 			} else {
-				outs[p.idx] = map[string]any{"delivered": "nowhere-visible"}
+				if len(closedByUs) > 0 {
+					outs[p.idx] = map[string]any{"delivered": "to-closed"}
+				} else {
+					outs[p.idx] = map[string]any{"delivered": "nowhere-visible"}
+				}
 			}
 		}
 	}
